@@ -118,7 +118,11 @@ def param2ast(param):
             simple=1,
             target=Name(name, Store()),
             value=set_value(
-                quote(_param["default"])
+                (
+                    quote(_param["default"])
+                    if isinstance(_param["default"], str)
+                    else _param["default"]
+                )
                 if _param.get("default")
                 else simple_types.get(_param["typ"])
             ),
